@@ -293,7 +293,7 @@ def marker_shard(unit):
 # ====================================================================================================
 
 LINKS = ('plain', 'method', 'lambda', 'gen', 'listcomp', 'genexpr', 'closure', 'exec', 'multiline',
-         'finally', 'rec2', 'rec3', 'rec4')
+         'finally', 'rec2', 'rec3', 'rec4', 'bounce', 'linecache')
 DEEP_LINKS = ('plain', 'lambda', 'exec', 'rec3')
 EXC_KINDS = ('msg', 'empty', 'keyerror', 'multiline', 'custom', 'nested', 'assert', 'badstr')
 RAISE = {
@@ -361,6 +361,18 @@ def program_source(chain, exc):
             src.append('def %s():\n    return (\n        %s()\n    )\n' % (me, nxt))
         elif kind == 'finally':
             src.append('def %s():\n    try:\n        return %s()\n    finally:\n        _sink[0] += 1\n' % (me, nxt))
+        elif kind == 'bounce':
+            # one source line, alternating function names (f<i> / <lambda>): the interpreter must NOT collapse these
+            src.append('def %s(n=3):\n    return (lambda: %s(n - 1))() if n else %s()\n' % (me, me, nxt))
+        elif kind == 'linecache':
+            # generated code under a synthetic <...> filename whose source is registered in linecache (as attrs,
+            # doctest or interactive shells do): the interpreter shows its source lines
+            src.append('import linecache as _lcm\n'
+                       '_src%d = "def _lc%d():\\n    return %s()\\n"\n'
+                       '_fn%d = "<c16gen %%s %d>" %% __name__\n'
+                       '_lcm.cache[_fn%d] = (len(_src%d), None, _src%d.splitlines(True), _fn%d)\n'
+                       'exec(compile(_src%d, _fn%d, "exec"), globals())\n'
+                       '%s = _lc%d\n' % (i, i, nxt, i, i, i, i, i, i, i, i, me, i))
         elif kind.startswith('rec'):
             k = int(kind[3:])
             src.append('def %s(n=%d):\n    return %s(n - 1) if n else %s()\n' % (me, k, me, nxt))
